@@ -38,6 +38,12 @@ func scenariosC02() []*scenario {
 			out = append(out, &scenario{name: fmt.Sprintf("c02/s%d/h%d", s0, i), base: s0, opt: crashOpts(), bound: bound, rounds: s.rounds, subs: s.subs})
 		}
 	}
+	// bounded pool: a high-priority submission evicts a pending low-priority one
+	// ("~" = low priority); every acknowledgement must still name the right index
+	for _, s0 := range []int64{0, 255} {
+		out = append(out, &scenario{name: fmt.Sprintf("c02/s%d/evict", s0), base: s0, opt: options{faults: true}, bound: 1, poolSize: 2,
+			rounds: [][]string{{}, {}}, subs: [][]string{{"~a"}, {"b"}, {"c"}}})
+	}
 	return out
 }
 
